@@ -161,6 +161,19 @@ Fixpoint digs (k : nat) (r : Z) (acc : str) : str :=
 Definition print_fixed (q : Z) (x : Z) : str :=
   dec (x / 10 ^ q) ++ (if q >? 0 then 46 :: digs (Z.to_nat q) (x mod 10 ^ q) [] else []).
 
+(* x / s rounded to the nearest integer, ties to even (s > 0) *)
+Definition round_half_even (x s : Z) : Z :=
+  let r := x / s in
+  let m := x mod s in
+  if (2 * m >? s) || ((2 * m =? s) && Z.odd r) then r + 1 else r.
+
+(* "%.*f" (precision p) of a double whose value is EXACTLY x / 10^q, x >= 0: pad with zeros when
+   p >= q, otherwise round half-even on the exact value (what glibc printf and CPython's
+   float.__format__ do).  Integers: q = 0; dyadic rationals k / 2^j: q = j. *)
+Definition print_dec (q p x : Z) : str :=
+  if p >=? q then print_fixed p (x * 10 ^ (p - q))
+  else print_fixed p (round_half_even x (10 ^ (q - p))).
+
 (* smallest k >= 0 with 10^k >= n  (= ceil(log10 n) for n >= 1) *)
 Fixpoint clog10_aux (fuel : nat) (k pw n : Z) : Z :=
   match fuel with
@@ -191,6 +204,15 @@ Fixpoint redges (t : rtree) : list (Z * Z) :=
 Record ctree : Type := mk_ctree {
   ct_lc : list Z; ct_rc : list Z; ct_ls : list Z; ct_par : list Z; ct_flags : list Z }.
 
+(* tsk_tree_get_size_bound (trees.c): 1 + num_samples + num_edges, the capacity (in entries) of
+   the traversal stack malloc'ed by tsk_newick_converter_init.  num_edges of the current tree =
+   the nodes that have a parent; num_samples = the sample nodes of the tree sequence. *)
+Definition count_if (f : Z -> bool) (l : list Z) : Z := zlen (filter f l).
+Definition num_edges_of (a : ctree) : Z := count_if (fun p => negb (p =? -1)) (ct_par a).
+Definition num_samples_of (a : ctree) : Z :=
+  count_if (fun f => Z.testbit (Z.land f c18_node_is_sample) 0) (ct_flags a).
+Definition size_bound (a : ctree) : Z := 1 + num_samples_of a + num_edges_of a.
+
 Definition get_is (l : list Z) (i v : Z) : bool :=
   match get l i with Ok x => x =? v | _ => false end.
 
@@ -216,6 +238,8 @@ Fixpoint repb (a : ctree) (p : Z) (t : rtree) : bool :=
 Fixpoint nodupb (l : list Z) : bool :=
   match l with [] => true | x :: r => negb (existsb (Z.eqb x) r) && nodupb r end.
 Definition memb (x : Z) (l : list Z) : bool := existsb (Z.eqb x) l.
+
+Definition err_value : Z := 3.      (* a Python ValueError *)
 
 Inductive labspec : Type :=
 | LabDefault                          (* node_labels=None: n<id> for samples *)
@@ -305,6 +329,8 @@ Section Writers.
           if zlen out >=? B then ovf else
           do rcv <- get (ct_rc a) v;
           do ch <- sibs (S (length (ct_ls a))) (ct_ls a) rcv;
+          (* stack_top++; stack[stack_top] = w : a write beyond the malloc'ed capacity is OOB *)
+          if zlen (rev ch ++ stack) >? size_bound a then OOB else
           Ok (rev ch ++ stack, u, out ++ [40])
         else
           do pv <- get (ct_par a) v;
@@ -415,6 +441,19 @@ Section Writers.
     | true, LabDefault => as_newick_fast a N (rid t) false prec W
     | true, LabMs => as_newick_fast a N (rid t) true prec W
     | _, _ => it_newick (lab_fn a t l) ibl prec t
+    end.
+  (* argument checks around the writers: Tree_get_newick (_tskitmodule.c) rejects a precision
+     outside 0..17 with ValueError on the fast path; str.format rejects a negative precision on
+     both paths ([Err err_value] = ValueError) *)
+  Definition as_newick_guarded (a : ctree) (N : Z) (t : rtree)
+             (l : labspec) (ibl : bool) (prec W : Z) : res str :=
+    match ibl, l with
+    | false, _ => as_newick a N t l ibl prec W               (* no number is rendered *)
+    | true, LabDict _ =>
+        if (prec <? 0) && negb (match rkids t with [] => true | _ => false end)
+        then Err err_value else as_newick a N t l ibl prec W
+    | true, _ =>
+        if (prec <? 0) || (prec >? 17) then Err err_value else as_newick a N t l ibl prec W
     end.
 End Writers.
 
@@ -538,6 +577,43 @@ Fixpoint filter_map {A B} (f : A -> option B) (l : list A) : list B :=
 Definition read_nexus_trees (lines : list str) : list ((str * str) * str) :=
   filter_map read_tree_line lines.
 
+(* own readers of the TAXA and DATA blocks *)
+Fixpoint split_sp (s cur : str) : list str :=
+  match s with
+  | [] => [rev cur]
+  | c :: r => if c =? 32 then rev cur :: split_sp r [] else split_sp r (c :: cur)
+  end.
+Definition read_taxlabels_line (l : str) : option (list str) :=
+  match strip_prefix (s2z "  TAXLABELS ") l with
+  | Some r =>
+      match rev r with
+      | 59 :: body => Some (match rev body with [] => [] | b => split_sp b [] end)
+      | _ => None
+      end
+  | None => None
+  end.
+Fixpoint read_nexus_taxa (lines : list str) : option (list str) :=
+  match lines with
+  | [] => None
+  | l :: r => match read_taxlabels_line l with Some x => Some x | None => read_nexus_taxa r end
+  end.
+(* the MATRIX rows "    <label> <sequence>" up to the line "  ;" *)
+Fixpoint read_nexus_rows (lines : list str) (inside : bool) : list (str * str) :=
+  match lines with
+  | [] => []
+  | l :: r =>
+      if inside then
+        if str_eqb l (s2z "  ;") then [] else
+        match strip_prefix (s2z "    ") l with
+        | Some x => match split_at 32 x with
+                    | Some ha => ha :: read_nexus_rows r true
+                    | None => read_nexus_rows r true
+                    end
+        | None => read_nexus_rows r true
+        end
+      else if str_eqb l (s2z "  MATRIX") then read_nexus_rows r true else read_nexus_rows r false
+  end.
+
 (* ------------------------------------------------------------------ *)
 (* Exact instance: times are integers counting units of 10^-q and are printed with q
    decimals ([print_fixed]); covers integer times at any precision and dyadic times k/8 at
@@ -574,12 +650,13 @@ Definition res_is_err (r : res str) (c : Z) : bool :=
   match r with Err x => x =? c | _ => false end.
 
 (* what Tree.as_newick itself returned *)
-Inductive out_obs : Type := OutStr (s : str) | OutOverflow | OutSkip.
+Inductive out_obs : Type := OutStr (s : str) | OutOverflow | OutValueError | OutSkip.
 
 Definition res_eq_obs (r : res str) (o : out_obs) : bool :=
   match o with
   | OutStr s => res_str_eqb r s
   | OutOverflow => res_is_err r c18_err_buffer_overflow
+  | OutValueError => res_is_err r err_value
   | OutSkip => true
   end.
 
@@ -590,7 +667,7 @@ Definition c18_check_newick (a : ctree) (N : Z) (t : rtree) (rp : Z)
   let lab := lab_fn a t l in
   let ms := match l with LabMs => true | _ => false end in
   (* Tree.as_newick: path choice, label dictionaries, buffer estimate *)
-  res_eq_obs (as_newick _ tok_sub pn tok_tm a N t l ibl prec W) out &&
+  res_eq_obs (as_newick_guarded _ tok_sub pn tok_tm a N t l ibl prec W) out &&
   repb a rp t && nodupb (ids t) && negb (memb rp (ids t)) &&
   (* text_formats.build_newick (iterative) *)
   res_str_eqb (it_newick _ tok_sub pn tok_tm lab ibl prec t) general &&
@@ -609,25 +686,30 @@ Definition c18_check_newick (a : ctree) (N : Z) (t : rtree) (rp : Z)
        (estimate N W =? B)
    end).
 
-Definition c18_check_exact (a : ctree) (N : Z) (t : rtree) (rp : Z) (times : list Z)
+Definition c18_check_exact (a : ctree) (N : Z) (t : rtree) (rp : Z) (q : Z) (times : list Z)
            (l : labspec) (ibl : bool) (prec : Z)
            (fast : option fast_obs) (general : str) (W : Z) (out : out_obs) : bool :=
   let tmf := fx_tm times in
+  let pn := print_dec q in
   let lab := lab_fn a t l in
   let ms := match l with LabMs => true | _ => false end in
-  let W' := zlen (print_fixed prec (tmf (rid t) - list_min times)) in
+  let W' := zlen (pn prec (tmf (rid t) - list_min times)) in
   (W' =? W) &&
-  res_eq_obs (as_newick Z Z.sub print_fixed tmf a N t l ibl prec W') out &&
+  res_eq_obs (as_newick_guarded Z Z.sub pn tmf a N t l ibl prec W') out &&
   repb a rp t && nodupb (ids t) && negb (memb rp (ids t)) &&
-  res_str_eqb (it_newick Z Z.sub print_fixed tmf lab ibl prec t) general &&
+  res_str_eqb (it_newick Z Z.sub pn tmf lab ibl prec t) general &&
   (match fast with
    | None => true
    | Some (FastOk B s) =>
-       res_str_eqb (c_newick Z Z.sub print_fixed tmf a N (rid t) ms prec B) s && (estimate N W' =? B)
+       res_str_eqb (c_newick Z Z.sub pn tmf a N (rid t) ms prec B) s && (estimate N W' =? B)
    | Some (FastOverflow B) =>
-       res_is_err (c_newick Z Z.sub print_fixed tmf a N (rid t) ms prec B) c18_err_buffer_overflow &&
+       res_is_err (c_newick Z Z.sub pn tmf a N (rid t) ms prec B) c18_err_buffer_overflow &&
        (estimate N W' =? B)
    end).
+
+(* tree->num_edges, num_samples as the implementation reports them *)
+Definition c18_check_size_bound (a : ctree) (num_samples num_edges : Z) : bool :=
+  (num_samples_of a =? num_samples) && (num_edges_of a =? num_edges).
 
 (* buffer size alone, for node counts beyond what the string checks can carry *)
 Definition c18_check_bufsize (N W B : Z) : bool := estimate N W =? B.
@@ -652,4 +734,9 @@ Definition c18_check_nexus (samples : list Z) (inc_al : bool) (nchar : Z) (mdc :
                  (if inc_trees then Some trees else None)) lines &&
   list_eqb (fun x y => str_eqb (fst (fst x)) (fst (fst y)) && str_eqb (snd (fst x)) (snd (fst y))
                        && str_eqb (snd x) (snd y))
-           (read_nexus_trees lines) (if inc_trees then trees else []).
+           (read_nexus_trees lines) (if inc_trees then trees else []) &&
+  opt_eqb (list_eqb str_eqb) (read_nexus_taxa lines)
+          (Some (map (fun u => c18_label_prefix ++ dec u) samples)) &&
+  list_eqb (fun x y => str_eqb (fst x) (fst y) && str_eqb (snd x) (snd y))
+           (read_nexus_rows lines false)
+           (if inc_al then map (fun ua => (c18_label_prefix ++ dec (fst ua), snd ua)) (combine samples als) else []).
